@@ -476,7 +476,80 @@ def json_str(x):
     return json.dumps(str(x))
 
 
-UNITS = {"statistics": (translate_statistics, "StatisticsSrc.lean"), "config": (translate_config, "ConfigSrc.lean")}
+
+# ---------------------------------------------------------------- version gate (version.py, io/json.py, io/version.py)
+
+def _version_term(text: str) -> str:
+    import re
+    m = re.fullmatch(r"(\d+(?:\.\d+)*)(?:(a|b|rc)(\d+))?", text.strip())
+    if not m:
+        raise Unsupported(f"version string {text!r} outside the modelled PEP 440 subset (release numbers, optional a/b/rc tag)")
+    rel = "[" + ", ".join(str(int(x)) for x in m.group(1).split(".")) + "]"
+    pre = "none" if not m.group(2) else f"some ({ {'a': 0, 'b': 1, 'rc': 2}[m.group(2)] }, {int(m.group(3))})"
+    return f"⟨{rel}, {pre}⟩"
+
+
+def _module_str_const(tree, name):
+    for n in tree.body:
+        tgt = n.targets[0] if isinstance(n, ast.Assign) and len(n.targets) == 1 else (n.target if isinstance(n, ast.AnnAssign) else None)
+        if isinstance(tgt, ast.Name) and tgt.id == name and isinstance(n.value, ast.Constant) and isinstance(n.value.value, str):
+            return n.value.value
+    raise Unsupported(f"module constant {name} is not a string literal")
+
+
+def translate_version(src_dir: str) -> str:
+    vt = ast.parse(open(os.path.join(src_dir, "version.py")).read())
+    jt = ast.parse(open(os.path.join(src_dir, "io", "json.py")).read())
+    gt = ast.parse(open(os.path.join(src_dir, "io", "version.py")).read())
+    cur = _module_str_const(vt, "__version__")
+    comp = _module_str_const(jt, "COMPATIBLE_VERSION")
+    coll = _module_str_const(jt, "COLLECTION_COMPATIBLE_VERSION")
+    # io/version.py: CURRENT_VERSION = __version__ ; the gate raises VersionError iff  <current> <op> <compatible>
+    if not any(isinstance(n, ast.Assign) and _src(n) == "CURRENT_VERSION = __version__" for n in gt.body):
+        raise Unsupported("io/version.py: CURRENT_VERSION is not __version__")
+    fn = next((n for n in gt.body if isinstance(n, ast.FunctionDef) and n.name == "require_compatible_version"), None)
+    if fn is None:
+        raise Unsupported("require_compatible_version not found")
+    raises = [n for n in ast.walk(fn) if isinstance(n, ast.If) and any(isinstance(b, ast.Raise) and "VersionError" in _src(b) for b in n.body)]
+    if len(raises) != 1 or raises[0].orelse:
+        fail(fn, "require_compatible_version does not have exactly one `if …: raise VersionError`")
+    t = raises[0].test
+    if not (isinstance(t, ast.Compare) and len(t.ops) == 1 and isinstance(t.left, ast.Name) and isinstance(t.comparators[0], ast.Name)):
+        fail(t, "condition of the version gate")
+    names = {"current_version": "current", "compatible_version": "compatible"}
+    if {t.left.id, t.comparators[0].id} != set(names) :
+        fail(t, "the version gate does not compare current_version with compatible_version")
+    # both names must be what they say: current_version = parse(CURRENT_VERSION); compatible_version parsed from the argument
+    if not any(isinstance(n, ast.Assign) and _src(n) == "current_version = parse(CURRENT_VERSION)" for n in ast.walk(fn)):
+        fail(fn, "current_version is not parse(CURRENT_VERSION)")
+    a, b = names[t.left.id], names[t.comparators[0].id]
+    rel = {ast.Lt: f"({a}.cmp {b} == .lt)", ast.Gt: f"({a}.cmp {b} == .gt)",
+           ast.LtE: f"({a}.cmp {b} != .gt)", ast.GtE: f"({a}.cmp {b} != .lt)"}.get(type(t.ops[0]))
+    if rel is None:
+        fail(t, "comparison operator of the version gate")
+    # the writer: which constant goes into "physt_compatible" for which kind of object
+    wr = next((n for n in jt.body if isinstance(n, ast.FunctionDef) and any("physt_compatible" in _src(x) for x in ast.walk(n) if isinstance(x, ast.Assign))), None)
+    if wr is None:
+        raise Unsupported("io/json.py: no function writes physt_compatible")
+    assigns = [x for x in ast.walk(wr) if isinstance(x, ast.Assign) and "physt_compatible" in _src(x.targets[0])]
+    vals = sorted(_src(x.value) for x in assigns)
+    if vals != ["COLLECTION_COMPATIBLE_VERSION", "COMPATIBLE_VERSION"]:
+        fail(wr, f"the writer stores {vals} as physt_compatible")
+    if not any(isinstance(x, ast.Assign) and "physt_version" in _src(x.targets[0]) and _src(x.value) == "CURRENT_VERSION" for x in ast.walk(wr)):
+        fail(wr, "the writer does not store CURRENT_VERSION as physt_version")
+    body = (f"/-- `physt.__version__` = {cur!r} -/\ndef Versions.current : Version := {_version_term(cur)}\n\n"
+            f"/-- `io.json.COMPATIBLE_VERSION` = {comp!r} (written into every histogram document) -/\ndef Versions.compatible : Version := {_version_term(comp)}\n\n"
+            f"/-- `io.json.COLLECTION_COMPATIBLE_VERSION` = {coll!r} (written into every collection document) -/\ndef Versions.collectionCompatible : Version := {_version_term(coll)}\n\n"
+            f"/-- `io.version.require_compatible_version` raises `VersionError` iff `{_src(t)}` -/\n"
+            f"def Versions.gateRefuses (current compatible : Version) : Bool := {rel}\n")
+    digest = hashlib.sha256(body.encode()).hexdigest()[:16]
+    head = ("import Physt.Model.Json\n/-! GENERATED by tools/py2lean.py from physt/version.py, io/json.py, io/version.py — do not edit; regenerated and compared on every run.\n"
+            f"digest of the definitions: {digest} -/\nnamespace Physt.Src\nopen Physt\n\n")
+    return head + body + "\nend Physt.Src\n"
+
+
+UNITS = {"statistics": (translate_statistics, "StatisticsSrc.lean"), "config": (translate_config, "ConfigSrc.lean"),
+         "version": (translate_version, "VersionSrc.lean")}
 
 
 def source_dir(arg):
